@@ -14,33 +14,64 @@ PROP = "C20"
 REPO = ombuild.REPO
 
 # ------------------------------------------------------------------------------------------------ documented interface
-# Hand-written from the help texts / documentation of the tools: for each option (keyed by its first alias) the
-# parameters in DOCUMENTED order, the harness op that performs the corresponding library call, and the kind of output.
-# A role starting with '?' is optional.  'out:<kind>' is the output file (kind: matrix, sym, sparse).
+# For each option (keyed by its first alias) the harness op that performs the corresponding library call.  The DOCUMENTED
+# parameter order ("roles") is NOT written here: it is derived by the translator from the lines the tools' help()
+# functions print (fill_documented_roles).  A role starting with '?' is optional, 'out:<kind>' is the output file.
 ASSEMBLE = {
-    "-HeadMat":                  dict(roles=["geom", "cond", "out:sym"], op="HM"),
-    "-CorticalMat":              dict(roles=["geom", "cond", "elec", "=domain", "out:matrix"], op="CM"),
-    "-SurfSourceMat":            dict(roles=["geom", "cond", "srcmesh", "out:matrix"], op="SSM"),
-    "-DipSourceMat":             dict(roles=["geom", "cond", "dip", "out:matrix", "?=domain"], op="DSM"),
-    "-EITSourceMat":             dict(roles=["geom", "cond", "eit", "out:matrix"], op="EITSM"),
-    "-Head2EEGMat":              dict(roles=["geom", "cond", "elec", "out:sparse"], op="H2EM"),
-    "-Head2ECoGMat":             dict(roles=["geom", "cond", "ecog", "?=iface", "out:sparse"], op="H2ECOGM"),
-    "-Head2MEGMat":              dict(roles=["geom", "cond", "squids", "out:matrix"], op="H2MM"),
-    "-SurfSource2MEGMat":        dict(roles=["srcmesh", "squids", "out:matrix"], op="SS2MM"),
-    "-DipSource2MEGMat":         dict(roles=["dip", "squids", "out:matrix"], op="DS2MM"),
-    "-Head2InternalPotMat":      dict(roles=["geom", "cond", "points", "out:matrix"], op="H2IPM"),
-    "-DipSource2InternalPotMat": dict(roles=["geom", "cond", "dip", "points", "out:matrix", "?=domain"], op="DS2IPM"),
+    "-HeadMat":                  dict(op="HM"),
+    "-CorticalMat":              dict(op="CM"),
+    "-SurfSourceMat":            dict(op="SSM"),
+    "-DipSourceMat":             dict(op="DSM"),
+    "-EITSourceMat":             dict(op="EITSM"),
+    "-Head2EEGMat":              dict(op="H2EM"),
+    "-Head2ECoGMat":             dict(op="H2ECOGM"),
+    "-Head2MEGMat":              dict(op="H2MM"),
+    "-SurfSource2MEGMat":        dict(op="SS2MM"),
+    "-DipSource2MEGMat":         dict(op="DS2MM"),
+    "-Head2InternalPotMat":      dict(op="H2IPM"),
+    "-DipSource2InternalPotMat": dict(op="DS2IPM"),
 }
 GAIN = {
-    "-EEG":                  dict(roles=["hminv", "dsm", "h2em", "out:matrix"], op="EEG"),
-    "-EEGadjoint":           dict(roles=["geom", "cond", "dip", "hm", "h2em", "out:matrix"], op="EEGadjoint"),
-    "-MEG":                  dict(roles=["hminv", "dsm", "h2mm", "ds2mm", "out:matrix"], op="MEG"),
-    "-MEGadjoint":           dict(roles=["geom", "cond", "dip", "hm", "h2mm", "ds2mm", "out:matrix"], op="MEGadjoint"),
-    "-EEGMEGadjoint":        dict(roles=["geom", "cond", "dip", "hm", "h2em", "h2mm", "ds2mm", "out:matrix", "out2:matrix"], op="EEGMEGadjoint"),
-    "-InternalPotential":    dict(roles=["hminv", "dsm", "h2ipm", "ds2ipm", "out:matrix"], op="IP"),
-    "-EITInternalPotential": dict(roles=["hminv", "eitsm", "h2ipm", "out:matrix"], op="EITIP"),
+    "-EEG":                  dict(op="EEG"),
+    "-EEGadjoint":           dict(op="EEGadjoint"),
+    "-MEG":                  dict(op="MEG"),
+    "-MEGadjoint":           dict(op="MEGadjoint"),
+    "-EEGMEGadjoint":        dict(op="EEGMEGadjoint"),
+    "-InternalPotential":    dict(op="IP"),
+    "-EITInternalPotential": dict(op="EITIP"),
 }
 DOC = {"om_assemble": ASSEMBLE, "om_gain": GAIN}
+OUTKIND = {"-HeadMat": "sym", "-Head2EEGMat": "sparse", "-Head2ECoGMat": "sparse"}
+
+def roles_of(tname, b):
+    """documented parameter order of an option block, as derived by the translator from the lines the tool's help()
+    prints (role from the wording of each line); None when the help text does not mention the option"""
+    if not b.get("doc"): return None
+    roles = []; nout = 0
+    for d in b["doc"]:
+        r = d["role"]
+        if r == "opt": continue                      # the free-form optional tail of -CorticalMat (alpha/beta/gamma/file)
+        if r == "out":
+            nout += 1; rr = ("out" if nout == 1 else "out2") + ":" + OUTKIND.get(b["aliases"][0], "matrix")
+        elif r in ("domain", "iface"): rr = "=" + r
+        else: rr = r
+        if tname == "om_gain" and b["aliases"][0] == "-EITInternalPotential" and r == "dsm": rr = "eitsm"   # the source matrix of EIT
+        roles.append(("?" if d["optional"] else "") + rr)
+    return roles
+
+def fill_documented_roles(ck, tools):
+    for t in tools:
+        doc = DOC.get(t["name"])
+        if doc is None: continue
+        for b in t["blocks"]:
+            bname = b["aliases"][0]
+            roles = roles_of(t["name"], b)
+            if bname in doc and roles is not None: doc[bname]["roles"] = roles
+            elif bname in doc:
+                doc.pop(bname)
+                ck.violation("undocumented option %s %s" % (t["name"], bname), "the help text of %s does not list the parameters of %s" % (t["name"], bname),
+                             dict(kind="table", tool=t["name"], option=bname), found_input=False)
+        for k in [k for k in doc if "roles" not in doc[k]]: doc.pop(k)
 # aliases the help text of the tools documents (the translator table must accept every one of them)
 SUFFIXES = [".bin", ".txt", ".mat"]
 TOOL_PATH = {"om_assemble": "apps/om_assemble", "om_gain": "apps/om_gain", "om_minverser": "apps/om_minverser",
@@ -675,6 +706,7 @@ def main(replay=None):
     tcli = load_translator()
     tools, problems = tcli.parse_all(REPO)
     R = Runner(ck, bdir, hb, tools)
+    fill_documented_roles(ck, tools)
     rng = ck.rng; wd = ck.workdir
     fsets = [make_generated(rng, wd, "m3", 3), make_generated(rng, wd, "m0", 2)]
     h1 = make_head1(rng, wd)
